@@ -3,7 +3,7 @@
    Model/FmtPyBrace.add_argument / field_init / pybrace_parse for all arguments, when str.isdecimal, int() and the three
    regular expressions are the model's oracles and scanners. *)
 From Coq Require Import List NArith ZArith Bool Lia.
-From I18n Require Import Lib.Outcome Model.FmtPerlBrace Model.FmtBracePy Generated.BraceSrc Model.FmtPyBrace.
+From I18n Require Import Lib.Outcome Model.FmtPerlBrace Model.FmtBracePy Generated.BraceSrc Proofs.BraceSrcPerl Model.FmtPyBrace Proofs.FmtPyBrace.
 Import ListNotations.
 
 (* ---------------------------------------------------------------- generic facts *)
@@ -317,6 +317,262 @@ Proof.
     all: destruct (t_empty (t_and tp1 {| t_str := true; t_int := false; t_float := true |})); [reflexivity|].
     all: cbn [o_int model_oracles]; destruct (py_int U pr) as [v|e|cr']; cbn [of_outcome bbind obind]; try reflexivity.
     all: destruct (Z.gtb v M); cbn [of_outcome bbind]; [reflexivity|apply Hconv].
+Qed.
+
+(* ---------------------------------------------------------------- facts about the scanners: what is left is a suffix;
+   the names reported for nested fields are not empty *)
+Definition suffix (r s : list N) : Prop := exists x, s = x ++ r.
+Lemma suffix_refl s : suffix s s.
+Proof. exists []. reflexivity. Qed.
+Lemma suffix_cons c r s : suffix r s -> suffix r (c :: s).
+Proof. intros [x ->]. exists (c :: x). reflexivity. Qed.
+Lemma suffix_trans a b c : suffix a b -> suffix b c -> suffix a c.
+Proof. intros [x ->] [y ->]. exists (y ++ x). rewrite app_assoc. reflexivity. Qed.
+Lemma span_suffix p s : suffix (snd (span p s)) s.
+Proof. exists (fst (span p s)). symmetry. apply span_app. Qed.
+
+Lemma m_ident_suffix s id r : m_ident U s = Some (id, r) -> suffix r s /\ id <> [].
+Proof.
+  unfold m_ident. destruct s as [|c t]; [discriminate|]. destruct (ident_start U c); [|discriminate].
+  pose proof (span_suffix (u_w U) t) as H. destruct (span (u_w U) t) as [w r']. cbn [snd] in H.
+  intros E; inversion E; subst. split; [apply suffix_cons; exact H|discriminate].
+Qed.
+
+Lemma m_name_tail_suffix fuel : forall s, suffix (snd (m_name_tail U fuel s)) s.
+Proof.
+  induction fuel as [|fuel IH]; intros s; cbn [m_name_tail]; [apply suffix_refl|].
+  destruct s as [|c r]; [apply suffix_refl|]. destruct (N.eqb c 46).
+  - destruct (m_ident U r) as [[id r']|] eqn:Ei; [|apply suffix_refl]. specialize (IH r').
+    destruct (m_name_tail U fuel r') as [t r'']. cbn [snd] in *. apply suffix_cons.
+    eapply suffix_trans; [exact IH|]. apply m_ident_suffix in Ei. apply Ei.
+  - destruct (N.eqb c 91); [|apply suffix_refl].
+    match goal with |- context [span ?p r] => pose proof (span_suffix p r) as Hs; destruct (span p r) as [ix r'] end.
+    cbn [snd] in Hs. destruct ix as [|i0 ix]; [apply suffix_refl|]. destruct r' as [|c' r'']; [apply suffix_refl|].
+    specialize (IH r''). destruct (m_name_tail U fuel r'') as [t r3]. cbn [snd] in *. apply suffix_cons.
+    eapply suffix_trans; [exact IH|]. eapply suffix_trans; [|exact Hs]. apply suffix_cons, suffix_refl.
+Qed.
+
+Lemma m_field_name_suffix s n r : m_field_name U s = Some (n, r) -> suffix r s /\ n <> [].
+Proof.
+  unfold m_field_name. destruct s as [|c t]; [discriminate|]. destruct (u_d U c) eqn:Ed.
+  - pose proof (span_suffix (u_d U) (c :: t)) as Hs. cbn [span] in *. rewrite Ed in *.
+    destruct (span (u_d U) t) as [a b]. cbn [snd] in Hs.
+    pose proof (m_name_tail_suffix (length b) b) as Ht. destruct (m_name_tail U (length b) b) as [t0 r']. cbn [snd] in Ht.
+    intros E; inversion E; subst. split; [eapply suffix_trans; [exact Ht|exact Hs]|discriminate].
+  - destruct (m_ident U (c :: t)) as [[id r0]|] eqn:Ei; [|discriminate]. apply m_ident_suffix in Ei as [H1 H2].
+    pose proof (m_name_tail_suffix (length r0) r0) as Ht. destruct (m_name_tail U (length r0) r0) as [t0 r']. cbn [snd] in Ht.
+    intros E; inversion E; subst. split; [eapply suffix_trans; [exact Ht|exact H1]|]. destruct id; [congruence|discriminate].
+Qed.
+
+Lemma m_simple_field_suffix s nm r : m_simple_field U s = Some (nm, r) -> suffix r s /\ nm <> Some [].
+Proof.
+  unfold m_simple_field. destruct s as [|c t]; [discriminate|]. destruct (N.eqb c 123); [|discriminate].
+  destruct (m_field_name U t) as [[n r']|] eqn:En.
+  - apply m_field_name_suffix in En as [H1 H2]. destruct r' as [|c1 r2]; [discriminate|]. destruct (N.eqb c1 125); [|discriminate].
+    intros E; inversion E; subst. split; [|congruence]. apply suffix_cons. eapply suffix_trans; [|exact H1]. apply suffix_cons, suffix_refl.
+  - destruct t as [|c1 r2]; [discriminate|]. destruct (N.eqb c1 125); [|discriminate].
+    intros E; inversion E; subst. split; [apply suffix_cons, suffix_cons, suffix_refl|discriminate].
+Qed.
+
+Lemma m_format_body_facts fuel : forall s t ns r, m_format_body U fuel s = Some (t, ns, r) -> suffix r s /\ nested_ok ns.
+Proof.
+  induction fuel as [|fuel IH]; intros s t ns r; cbn [m_format_body]; [discriminate|].
+  pose proof (span_suffix not_brace s) as Hs. destruct (span not_brace s) as [run r0]. cbn [snd] in Hs.
+  destruct r0 as [|c r0']; [intros E; inversion E; subst; split; [exact Hs|constructor]|].
+  destruct (N.eqb c 123); [|intros E; inversion E; subst; split; [exact Hs|constructor]].
+  destruct (m_simple_field U (c :: r0')) as [[nm r']|] eqn:Esf; [|discriminate].
+  destruct (m_format_body U fuel r') as [[[t' ns'] r'']|] eqn:Eb; [|discriminate].
+  intros E; inversion E; subst. apply IH in Eb as [H1 H2]. apply m_simple_field_suffix in Esf as [H3 H4].
+  split; [eapply suffix_trans; [exact H1|eapply suffix_trans; [exact H3|exact Hs]]|constructor; assumption].
+Qed.
+
+Lemma m_field_facts s f r : m_field U s = Some (f, r) -> suffix r s /\ nested_ok (f_nested f).
+Proof.
+  unfold m_field. destruct s as [|c t]; [discriminate|]. destruct (N.eqb c 123); [|discriminate].
+  assert (H1 : suffix (snd (match m_field_name U t with Some (n, r') => (Some n, r') | None => (None, t) end)) t).
+  { destruct (m_field_name U t) as [[n r']|] eqn:En; cbn [snd]; [apply m_field_name_suffix in En; apply En|apply suffix_refl]. }
+  destruct (match m_field_name U t with Some (n, r') => (Some n, r') | None => (None, t) end) as [nm r1]. cbn [snd] in H1.
+  set (cvr := match r1 with
+              | c1 :: r1' => if N.eqb c1 33 then match span (u_w U) r1' with ((_ :: _) as w, r') => (Some (c1 :: w), r') | _ => (None, r1) end else (None, r1)
+              | [] => (None, r1) end).
+  assert (H2 : suffix (snd cvr) r1).
+  { unfold cvr. destruct r1 as [|c1 r1']; [apply suffix_refl|]. destruct (N.eqb c1 33); [|apply suffix_refl].
+    pose proof (span_suffix (u_w U) r1') as Hs. destruct (span (u_w U) r1') as [[|w0 w] r']; cbn [snd] in *; [apply suffix_refl|].
+    apply suffix_cons. exact Hs. }
+  destruct cvr as [cv r2]. cbn [snd] in H2.
+  set (fmr := match r2 with
+              | c2 :: r2' => if N.eqb c2 58 then match m_format_body U (S (length r2')) r2' with Some (t0, ns, r') => (Some (c2 :: t0), ns, r') | None => (None, [], r2) end else (None, [], r2)
+              | [] => (None, [], r2) end).
+  assert (H3 : suffix (snd fmr) r2 /\ nested_ok (snd (fst fmr))).
+  { unfold fmr. destruct r2 as [|c2 r2']; [cbn; split; [apply suffix_refl|constructor]|].
+    destruct (N.eqb c2 58); [|cbn; split; [apply suffix_refl|constructor]].
+    destruct (m_format_body U (S (length r2')) r2') as [[[t0 ns] r']|] eqn:Eb; [|cbn; split; [apply suffix_refl|constructor]].
+    apply m_format_body_facts in Eb as [Hb1 Hb2]. cbn [fst snd]. split; [apply suffix_cons; exact Hb1|exact Hb2]. }
+  destruct fmr as [[fm ns] r3]. cbn [fst snd] in H3. destruct H3 as [H3 H4].
+  destruct r3 as [|c3 r4]; [discriminate|]. destruct (N.eqb c3 125); [|discriminate].
+  intros H; inversion H; subst. cbn [f_nested]. split; [|exact H4].
+  apply suffix_cons. eapply suffix_trans; [|exact H1]. eapply suffix_trans; [|exact H2]. eapply suffix_trans; [|exact H3].
+  apply suffix_cons, suffix_refl.
+Qed.
+
+Lemma m_field_re_facts s it r : m_field_re U s = Some (it, r) ->
+  suffix r s /\ match it with BLit _ => True | BField f => nested_ok (f_nested f) end.
+Proof.
+  unfold m_field_re. pose proof (m_literal_app s) as Hl. destruct (m_literal s) as [[|t0 t] r0]; cbn [fst snd] in Hl.
+  - destruct (m_field U s) as [[f r']|] eqn:Ef; [|discriminate]. apply m_field_facts in Ef.
+    intros H; inversion H; subst. exact Ef.
+  - intros H. injection H as <- <-. split; [exists (t0 :: t); symmetry; exact Hl|exact I].
+Qed.
+
+(* ---------------------------------------------------------------- the finditer loop of FormatString.__init__ *)
+Definition pb_raise_prefix {A} (s : pystr) : bres pb_err A :=
+  bbind (src_pybrace_printable_prefix s) (fun r => BRaise (XOwn (BError r))).
+
+Lemma span_perl_py p : forall s, FmtPerlBrace.span p s = span p s.
+Proof.
+  induction s as [|c r IH]; cbn [FmtPerlBrace.span span]; [reflexivity|]. destruct (p c); [rewrite IH|]; reflexivity.
+Qed.
+Lemma pb_printable_eq {A} s : @pb_raise_prefix A s = of_pb (@printable_prefix A s).
+Proof.
+  unfold pb_raise_prefix, src_pybrace_printable_prefix, printable_match, printable_prefix.
+  change FmtPerlBrace.is_printable_ascii with is_printable_ascii. rewrite span_perl_py.
+  destruct (fst (span is_printable_ascii s)); reflexivity.
+Qed.
+
+Lemma src_pybrace_loop_eq {A} s0 (K : nat * option amap * option Z -> bres pb_err A) (KM : bstate -> bres pb_err A) :
+  (forall lp am nx, lp <> length s0 -> K (lp, am, nx) = pb_raise_prefix (skipn lp s0)) ->
+  (forall st, K (length s0, Some (img (b_map st)), b_next st) = KM st) ->
+  forall fuel s pos st, (length s < fuel)%nat -> skipn pos s0 = s -> (pos + length s = length s0)%nat ->
+  bbind (src_pybrace_init_loop1 O s0 (Some (img (b_map st))) (b_next st) pos (py_finditer (m_field_re U) fuel pos s)) K =
+  match bloop U M fuel s st with Ok st' => KM st' | Err e => BRaise (XOwn e) | Crash c => BRaise (XCrash c) end.
+Proof.
+  intros HK1 HK2. induction fuel as [|fuel IH]; intros s pos st Hf Hs Hl; [lia|].
+  cbn [py_finditer bloop]. destruct s as [|c r].
+  - cbn [src_pybrace_init_loop1 bbind]. cbn [length] in Hl. replace pos with (length s0) by lia. apply HK2.
+  - destruct (m_field_re U (c :: r)) as [[it rest]|] eqn:Em.
+    + destruct (m_field_re_facts _ _ _ Em) as [[x Hx] Hn]. destruct (m_field_re_some _ _ _ _ Em) as [Hlen _].
+      cbn [src_pybrace_init_loop1 pm_start pm_end pm_groups]. rewrite Nat.eqb_refl. cbn [negb].
+      assert (Hs' : skipn (pos + (length (c :: r) - length rest)) s0 = rest) by (eapply skipn_suffix; eauto).
+      assert (Hl' : (pos + (length (c :: r) - length rest) + length rest = length s0)%nat) by lia.
+      assert (Hf' : (length rest < fuel)%nat) by (cbn [length] in *; lia).
+      destruct it as [t|f]; cbn [pbi_literal].
+      * apply IH; assumption.
+      * change {| s_amap := Some (img (b_map st)); s_next := b_next st |} with (st_of st).
+        rewrite src_field_init_eq by exact Hn.
+        destruct (field_init U M st f) as [st'|e|cr]; cbn [of_st bbind obind]; [|reflexivity|reflexivity].
+        cbn [st_of s_amap s_next]. apply IH; assumption.
+    + transitivity (@pb_raise_prefix A (c :: r)).
+      * destruct (py_finditer (m_field_re U) fuel (S pos) r) as [|m l] eqn:Ef.
+        -- cbn [src_pybrace_init_loop1 bbind]. cbn [length] in Hl. rewrite HK1 by lia. rewrite Hs. reflexivity.
+        -- apply finditer_head_ge in Ef. cbn [src_pybrace_init_loop1].
+           replace (pm_start m =? pos)%nat with false by (symmetry; apply Nat.eqb_neq; lia). cbn [negb].
+           unfold str_from. rewrite Hs. unfold pb_raise_prefix.
+           destruct (@src_pybrace_printable_prefix pb_err (c :: r)); reflexivity.
+      * rewrite pb_printable_eq. unfold of_pb, of_outcome, printable_prefix.
+        destruct (fst (span is_printable_ascii (c :: r))); reflexivity.
+Qed.
+
+(* ---------------------------------------------------------------- every list of the map has an element *)
+Definition map_ne (m : list (akey * list fkind)) : Prop := Forall (fun kv => snd kv <> []) m.
+
+Lemma bmap_add_ne k f : forall m, map_ne m -> map_ne (bmap_add k f m).
+Proof.
+  induction m as [|[k0 fs] r IH]; intros H; cbn [bmap_add].
+  - constructor; [discriminate|constructor].
+  - inversion H as [|? ? H1 H2]; subst. destruct (akey_eqb k0 k).
+    + constructor; [cbn [snd]; destruct fs; discriminate|exact H2].
+    + constructor; [exact H1|apply IH; exact H2].
+Qed.
+Lemma add_nested_ne : forall ns st st', map_ne (b_map st) -> add_nested U M st ns = Ok st' -> map_ne (b_map st').
+Proof.
+  induction ns as [|o ns IH]; intros st st' Hne; cbn [add_nested]; [intros H; inversion H; subst; exact Hne|].
+  destruct (add_argument U M st o) as [[k st1]|[]|] eqn:Ea; cbn [lift_add obind]; try discriminate.
+  intros H. apply IH in H; [exact H|]. cbn [file_field b_map]. apply bmap_add_ne.
+  rewrite (add_argument_map _ _ _ _ Ea). exact Hne.
+Qed.
+Lemma field_init_ne st f st' : map_ne (b_map st) -> field_init U M st f = Ok st' -> map_ne (b_map st').
+Proof.
+  intros Hne. unfold field_init.
+  destruct (add_argument U M st (f_name f)) as [[k st1]|[]|] eqn:Ea; cbn [lift_add obind]; try discriminate.
+  assert (H1 : forall tp, map_ne (b_map (file_field st1 k (FField tp)))).
+  { intros tp. cbn [file_field b_map]. apply bmap_add_ne. rewrite (add_argument_map _ _ _ _ Ea). exact Hne. }
+  destruct (f_fmt f) as [fmt|].
+  - destruct (existsb (N.eqb 123) fmt).
+    + destruct (add_nested U M (file_field st1 k (FField t_all)) (f_nested f)) as [st2| |] eqn:En; cbn [obind]; try discriminate.
+      destruct (conv_check (f_conv f) t_all); cbn [obind]; try discriminate.
+      intros H; inversion H; subst. eapply add_nested_ne; [apply H1|exact En].
+    + destruct fmt as [|c ft]; [discriminate|]. destruct (N.eqb c 58); [|discriminate].
+      destruct (spec_types U M (f_text f) ft) as [tp| |]; cbn [obind]; try discriminate.
+      destruct (conv_check (f_conv f) tp); cbn [obind]; try discriminate. intros H; inversion H; subst. apply H1.
+  - destruct (conv_check (f_conv f) t_all); cbn [obind]; try discriminate. intros H; inversion H; subst. apply H1.
+Qed.
+Lemma bloop_ne fuel : forall s st st', map_ne (b_map st) -> bloop U M fuel s st = Ok st' -> map_ne (b_map st').
+Proof.
+  induction fuel as [|fuel IH]; intros s st st' Hne; cbn [bloop]; [discriminate|].
+  destruct s as [|c r]; [intros H; inversion H; subst; exact Hne|].
+  destruct (m_field_re U (c :: r)) as [[[t|f] rest]|].
+  - apply IH. exact Hne.
+  - destruct (field_init U M st f) as [st1| |] eqn:Ef; cbn [obind]; try discriminate.
+    apply IH. eapply field_init_ne; eauto.
+  - unfold printable_prefix. destruct (fst (span is_printable_ascii (c :: r))); discriminate.
+Qed.
+
+(* ---------------------------------------------------------------- the final loop over _argument_map.items() *)
+Lemma t_and_all t : t_and t_all t = t.
+Proof. destruct t; reflexivity. Qed.
+Lemma cells_and_eq : forall fs acc, @cells_and pb_err acc (map cell_of fs) = BRet (fold_left (fun a k => t_and a (fk_types k)) fs acc).
+Proof. induction fs as [|k fs IH]; intros acc; cbn [map cells_and cell_of fold_left]; [reflexivity|apply IH]. Qed.
+Lemma reduce_eq fs : fs <> [] -> @py_reduce_tand pb_err (map cell_of fs) = BRet (common_types fs).
+Proof.
+  destruct fs as [|k fs]; [congruence|]. intros _. unfold common_types. cbn [map py_reduce_tand cell_of fold_left].
+  rewrite t_and_all. apply cells_and_eq.
+Qed.
+
+Definition cells_of_sig (kv : akey * list fkind) : akey * list cell :=
+  (fst kv, map (fun _ : cell => Some (common_types (snd kv))) (map cell_of (snd kv))).
+
+Lemma src_pybrace_loop2_eq vs : forall mm acc, map_ne mm ->
+  src_pybrace_init_loop2 O vs acc (img mm) =
+  if existsb (fun kv => t_empty (common_types (snd kv))) mm then BRaise (XOwn BTypeMismatch)
+  else BRet (acc ++ map cells_of_sig mm).
+Proof.
+  induction mm as [|[k fs] r IH]; intros acc Hne; cbn [img map src_pybrace_init_loop2 existsb fst snd].
+  - rewrite app_nil_r. reflexivity.
+  - inversion Hne as [|? ? H1 H2]; subst. cbn [snd] in H1. rewrite (reduce_eq fs H1). cbn [bbind].
+    destruct (t_empty (common_types fs)); cbn [orb]; [reflexivity|].
+    fold (img r). rewrite IH by exact H2. destruct (existsb _ r); [reflexivity|].
+    rewrite <- app_assoc. reflexivity.
+Qed.
+
+(* ---------------------------------------------------------------- FormatString.__init__ *)
+Definition pb_attempt := m_field_re U.
+Definition pb_finditer (s : pystr) : list (pymatch pb_item) := py_finditer pb_attempt (S (length s)) 0 s.
+
+(* argument_map as the code leaves it: under every key, one `types` value per filed object, all equal *)
+Definition sig_cells (sg : pb_sig) : amap :=
+  map (fun kv => (fst kv, repeat (Some (fst (snd kv))) (snd (snd kv)))) (argument_map sg).
+Definition of_sig (x : outcome pb_sig pb_err) : bres pb_err amap :=
+  match x with Ok sg => BRet (sig_cells sg) | Err e => BRaise (XOwn e) | Crash c => BRaise (XCrash c) end.
+
+Lemma map_const_repeat {A B} (v : B) : forall l : list A, map (fun _ => v) l = repeat v (length l).
+Proof. induction l as [|x l IH]; cbn; [reflexivity|]. f_equal. exact IH. Qed.
+
+Theorem src_pybrace_init_eq s : src_pybrace_init O pb_finditer s = of_sig (pybrace_parse U M s).
+Proof.
+  unfold src_pybrace_init, pybrace_parse, pb_finditer, pb_attempt. cbv zeta.
+  change (Some (@nil (akey * list cell))) with (Some (img (b_map b0))). change (Some 0%Z) with (b_next b0).
+  rewrite (src_pybrace_loop_eq s _
+             (fun st => bbind (src_pybrace_init_loop2 O s [] (img (b_map st))) (fun m6 => BRet m6))).
+  - destruct (bloop U M (S (length s)) s b0) as [st|e|c] eqn:Eb; cbn [obind of_sig]; try reflexivity.
+    rewrite src_pybrace_loop2_eq by (eapply bloop_ne; [|exact Eb]; constructor).
+    destruct (existsb _ (b_map st)); [reflexivity|]. cbn [bbind app of_sig]. f_equal.
+    unfold sig_cells. cbn [argument_map]. rewrite map_map. apply map_ext. intros [k fs]. unfold cells_of_sig. cbn [fst snd].
+    rewrite map_const_repeat, map_length. reflexivity.
+  - intros lp am nx Hne. replace (lp =? length s)%nat with false by (symmetry; apply Nat.eqb_neq; exact Hne). reflexivity.
+  - intros st. rewrite Nat.eqb_refl. reflexivity.
+  - lia.
+  - reflexivity.
+  - cbn. lia.
 Qed.
 
 End Py.
